@@ -132,6 +132,22 @@ impl<'a> World<'a> {
         Ok(d)
     }
 
+    /// A decode after the oracle's own flush() failed.  If the files are fine once every handle
+    /// is dropped, the flush simply did not write (a durability matter, property C03) and the
+    /// check at hand cannot decide its own property on this run.
+    fn blame_flush(&mut self, m: usize, v: Violation) -> Stop {
+        let saved_step = self.step_no;
+        if self.close_all().is_err() {
+            return Stop::Violation(v);
+        }
+        let r = self.decode_and_compare(m, "close");
+        self.step_no = saved_step;
+        match r {
+            Ok(_) => Stop::Inconclusive(format!("flush() did not bring the files up to date, closing did ({}); durability is property C03", v.signature)),
+            Err(_) => Stop::Violation(v),
+        }
+    }
+
     fn flush_quiet(&mut self, hd: &mut dyn DynMap) -> StepResult {
         let r = self.call("flush", |_| hd.flush())?;
         match r {
@@ -308,7 +324,15 @@ impl<'a> World<'a> {
 
     pub fn post_update_check(&mut self, m: usize, hd: &mut dyn DynMap, single_key: bool, affected: Option<Vec<u8>>) -> StepResult {
         self.flush_quiet(hd)?;
-        let d = self.decode_and_compare(m, "update")?;
+        let d = match self.decode_and_compare(m, "update") {
+            Ok(d) => d,
+            Err(Stop::Violation(v)) => {
+                // the handle in use is outside its slot during this call: put it back by
+                // dropping it here is not possible, so only blame the flush when closing works
+                return Err(Stop::Violation(Violation { detail: format!("{} [after the oracle's flush]", v.detail), ..v }));
+            }
+            Err(e) => return Err(e),
+        };
         let imgs = self.images(m);
         // ---- relocation probes and neighbour bytes (pre vs. post)
         if let (Some(pre), Some(pre_imgs), Some(post_imgs)) = (self.maps[m].last.as_ref(), self.maps[m].last_imgs.as_ref(), imgs.as_ref()) {
@@ -622,7 +646,10 @@ pub fn run_once(ep: &Episode, env: &Env, dirbase: &'static str, only_updates: bo
                     kernel::with(|k| k.step_events.clear());
                     let r = w.post_update_check(m, &mut *hd, single, affected);
                     w.handles[h as usize] = Some((mm, hd));
-                    r?;
+                    match r {
+                        Err(Stop::Violation(v)) if v.class == "decoder" => return Err(w.blame_flush(m, v)),
+                        other => other?,
+                    }
                 }
             }
             let n = i as u32 + 1;
